@@ -1316,6 +1316,10 @@ func (g *Gen) genDumpLoad(faulty bool) {
 	if len(g.openQueries()) > 0 && !faulty {
 		return
 	}
+	if !faulty && g.rng.chance(15) {
+		// a world with a history but no alive entity left
+		g.do("b_rment A 0")
+	}
 	out := g.do("dump")
 	if len(out) == 0 || !strings.HasPrefix(out[0], "= ok d") {
 		return
